@@ -21,7 +21,7 @@ def apiPrefix (opts : RenderOptions) : M Unit := do
   updateFrom opts
 
 theorem apiRender_eq (env : Env) (fuel : Nat) (src : Str) (opts : RenderOptions) :
-    apiRender env fuel src opts = (apiPrefix opts >>= fun _ => (mkRec env fuel).document src) := by
+    apiRender env fuel src opts = (apiPrefix opts >>= fun _ => (mkRec env fuel).document 0 src) := by
   unfold apiRender apiPrefix
   simp only [bind_assoc]
   congr 1
@@ -30,13 +30,13 @@ theorem apiRender_eq (env : Env) (fuel : Nat) (src : Str) (opts : RenderOptions)
 
 /-- Every document render, nested or not, at every fuel, preserves `Step`. -/
 theorem document_step (env : Env) (fuel : Nat) (src : Str) (s s' : Session) (html : Str)
-    (h : ((mkRec env fuel).document src).run s = .ok (html, s')) : Step s s' :=
-  (mkRec_spec env fuel).2 src s html s' h
+    (h : ((mkRec env fuel).document 0 src).run s = .ok (html, s')) : Step s s' :=
+  (mkRec_spec env fuel).2 0 src s html s' h
 
 /-- **C04 (full).**  A source rendered in a non-zero safe mode changes none of the definition tables nor the
     options; macro definitions only with bit 8. -/
 theorem untrusted_source_cannot_change_definitions (env : Env) (fuel : Nat) (src : Str) (s s' : Session) (html : Str)
-    (h : ((mkRec env fuel).document src).run s = .ok (html, s')) (hmode : s.safeMode ≠ 0) :
+    (h : ((mkRec env fuel).document 0 src).run s = .ok (html, s')) (hmode : s.safeMode ≠ 0) :
     s'.safeMode = s.safeMode ∧ s'.htmlReplacement = s.htmlReplacement ∧
     s'.quoteDefs = s.quoteDefs ∧ s'.replDefs = s.replDefs ∧ s'.blockDefs = s.blockDefs ∧
     (pyAnd s.safeMode 8 = 0 → s'.macroDefs = s.macroDefs) := by
@@ -68,7 +68,7 @@ theorem api_untrusted_source_cannot_change_definitions (env : Env) (fuel : Nat) 
     has run in one of them, for each of the protected fields; so a later render can differ only through the
     fields that the property exempts (ids, pending Block Attributes, macros under bit 8). -/
 theorem later_render_sees_same_definitions (env : Env) (fuel : Nat) (untrusted : Str) (s s' : Session) (html : Str)
-    (h : ((mkRec env fuel).document untrusted).run s = .ok (html, s')) (hmode : s.safeMode ≠ 0) (h8 : pyAnd s.safeMode 8 = 0) :
+    (h : ((mkRec env fuel).document 0 untrusted).run s = .ok (html, s')) (hmode : s.safeMode ≠ 0) (h8 : pyAnd s.safeMode 8 = 0) :
     ({ s' with ids := s.ids, classes := s.classes, id := s.id, css := s.css, attributes := s.attributes, opts := s.opts,
                log := s.log, listIds := s.listIds, saved := s.saved, callback := s.callback } : Session) = s := by
   obtain ⟨h1, h2, h3, h4, h5, h6⟩ := untrusted_source_cannot_change_definitions env fuel untrusted s s' html h hmode
@@ -86,7 +86,7 @@ def mode5 : Session :=
     succeeds (so the hypotheses of the theorems above are met by a concrete run), and indeed leaves the
     quote table alone. -/
 example :
-    (match ((mkRec ⟨fun _ _ => .error⟩ 50).document "x = '<u>|</u>'\n\n{m} = 'v'\n\n.safeMode = '0'\n\n/a/ = 'b'".toList).run mode5 with
+    (match ((mkRec ⟨fun _ _ => .error⟩ 50).document 0 "x = '<u>|</u>'\n\n{m} = 'v'\n\n.safeMode = '0'\n\n/a/ = 'b'".toList).run mode5 with
      | .ok (_, s') => s'.safeMode == 5 && s'.quoteDefs.length == mode5.quoteDefs.length && mode5.safeMode != 0
      | .error _ => false) = true := by
   decide +kernel
